@@ -12,6 +12,7 @@ import BB.Driver.OpsCps
 import BB.Driver.OpsMacros
 import BB.Driver.OpsRules
 import BB.Driver.OpsTree
+import BB.Driver.OpsPy
 
 namespace BB.Driver
 
@@ -110,6 +111,8 @@ def handle (op : String) (args : List String) (text : String) : String :=
     | none => match OpsRules.handle op args text with
     | some r => r
     | none => match OpsTree.handle op args text with
+    | some r => r
+    | none => match OpsPy.handle op args text with
     | some r => r
     | none => "BAD-OP"
 
